@@ -253,7 +253,17 @@ func barriersSatisfiable(d *Desc) bool {
 					ok++
 				}
 			}
-			if ok < x.BarrierN || x.BarrierN < 2 {
+			limit := 0
+			switch p.Flow.ConcMode {
+			case progen.ArgConst:
+				limit = p.Flow.ConcConst
+			case progen.ArgRuntime:
+				limit = x.Conc
+			}
+			if limit <= 0 {
+				limit = max(d.GOMAXPROCS, 4)
+			}
+			if ok < x.BarrierN || x.BarrierN < 2 || limit < x.BarrierN {
 				return false
 			}
 			continue
